@@ -42,6 +42,9 @@ if ! RUSTFLAGS="--cfg fast_qr_verif" cargo +nightly fuzz build --fuzz-dir "$FUZZ
   exit 2
 fi
 BIN="$FUZZ/target/x86_64-unknown-linux-gnu/release/fz_$T"
+# payload-carrying targets get the dictionary of special byte sequences
+DICT=""
+case "$T" in build|masks|wasm|history) DICT="-dict=$FUZZ/dict/payload.dict" ;; esac
 WORK="$FUZZ/work/$ID"
 rm -rf "$WORK"; mkdir -p "$WORK"
 pids=()
@@ -49,7 +52,7 @@ for k in $(seq 0 $((PROCS-1))); do
   mkdir -p "$WORK/corpus$k" "$WORK/art$k"
   cp "$FUZZ/seeds/$T"/* "$WORK/corpus$k/" 2>/dev/null
   ( cd "$WORK" && FQV_FUZZ_PROPS="$ID" FQV_FUZZ_STATS="$WORK/stats$k.json" FQV_VERIF_DIR="$VERIF" \
-      timeout "$BUDGET" "$BIN" "corpus$k" -artifact_prefix="art$k/" -runs="$RUNS" -seed=$((SEED*16+k+1)) -max_len="$MAXLEN" -len_control=0 \
+      timeout "$BUDGET" "$BIN" "corpus$k" $DICT -artifact_prefix="art$k/" -runs="$RUNS" -seed=$((SEED*16+k+1)) -max_len="$MAXLEN" -len_control=0 \
       -rss_limit_mb=4096 -timeout=120 -print_final_stats=1 >"log$k.txt" 2>&1; echo $? >"rc$k" ) &
   pids+=($!)
 done
